@@ -1931,6 +1931,8 @@ func (c *Cache) additionalAnswer(ctx context.Context, msg *dns.Msg) *dns.Msg {
 				return dnsutil.SetRcode(msg, dns.RcodeServerFailure, false)
 			}
 			cnameReq.SetQuestion(cr.Target, q.Qtype)
+			// SetQuestion forces class IN; the chase stays in the client's class.
+			cnameReq.Question[0].Qclass = q.Qclass
 		}
 	}
 
